@@ -92,6 +92,22 @@ func (f *fnnCtx) valueFNN(v ssa.Value, fn *ssa.Function, depth int) (bool, strin
 		if returnsParam0(o) {
 			return f.valueFNN(x.Call.Args[0], fn, depth+1)
 		}
+		// a pointer-receiver method called on a local set that is still its zero value (var m Set; return m.Add(…)):
+		// if the method, entered with *recv == nil, first stores a fresh map there and hands back what is there,
+		// the result is that fresh map
+		if al, isLocal := x.Call.Args[0].(*ssa.Alloc); isLocal && len(x.Call.Args) > 0 && nilRecvMakesFresh(o) {
+			zero := true
+			for _, r := range referrersOf(al) {
+				if st, ok := r.(*ssa.Store); ok && st.Addr == ssa.Value(al) {
+					if k, isK := st.Val.(*ssa.Const); !isK || k.Value != nil {
+						zero = false
+					}
+				}
+			}
+			if zero {
+				return true, ""
+			}
+		}
 		if f.fnReturnsFNN(o) {
 			return true, ""
 		}
@@ -104,6 +120,89 @@ func (f *fnnCtx) valueFNN(v ssa.Value, fn *ssa.Function, depth int) (bool, strin
 		return f.cellFNN(cell, fn, x, depth+1)
 	}
 	return false, fmt.Sprintf("value of unrecognised form %T (%s)", v, sym(v))
+}
+
+// nilRecvMakesFresh: fn has a pointer receiver p; in its entry block it tests *p == nil and on that edge stores a
+// fresh map to *p; nothing else is stored to *p; and every return hands back the current *p (directly, or through
+// helpers that return their first argument).
+func nilRecvMakesFresh(fn *ssa.Function) bool {
+	if fn == nil || fn.Blocks == nil || len(fn.Params) == 0 {
+		return false
+	}
+	p := ssa.Value(fn.Params[0])
+	if _, isPtr := p.Type().Underlying().(*types.Pointer); !isPtr {
+		return false
+	}
+	isLoadP := func(v ssa.Value) bool {
+		a, ok := loadAddr(v)
+		return ok && a == p
+	}
+	nFresh, clean := 0, true
+	allInstrs(fn, func(in ssa.Instruction) {
+		st, ok := in.(*ssa.Store)
+		if !ok || st.Addr != p {
+			return
+		}
+		v := st.Val
+		if ct, ok := v.(*ssa.ChangeType); ok {
+			v = ct.X
+		}
+		if _, isMk := v.(*ssa.MakeMap); !isMk {
+			clean = false
+			return
+		}
+		// on the edge *p == nil of a test in the entry block
+		guarded := false
+		for _, pr := range st.Block().Preds {
+			if pr != fn.Blocks[0] {
+				continue
+			}
+			if iff, ok := pr.Instrs[len(pr.Instrs)-1].(*ssa.If); ok {
+				for i, sb := range pr.Succs {
+					if sb != st.Block() {
+						continue
+					}
+					if cm, ok := edgeCmp(iff, i); ok && cm.Op == token.EQL && ((isLoadP(cm.X) && isNilConst(cm.Y)) || (isLoadP(cm.Y) && isNilConst(cm.X))) {
+						guarded = true
+					}
+				}
+			}
+		}
+		if guarded && len(st.Block().Preds) == 1 {
+			nFresh++
+		} else {
+			clean = false
+		}
+	})
+	if !clean || nFresh != 1 {
+		return false
+	}
+	var cur func(v ssa.Value, d int) bool
+	cur = func(v ssa.Value, d int) bool {
+		if d > 3 {
+			return false
+		}
+		if isLoadP(v) {
+			// read after the test-and-store, not in front of it
+			return v.(ssa.Instruction).Block() != fn.Blocks[0]
+		}
+		if call, ok := v.(*ssa.Call); ok {
+			if cal := origin(staticCallee(&call.Call)); cal != nil && returnsParam0(cal) && len(call.Call.Args) > 0 {
+				return cur(call.Call.Args[0], d+1)
+			}
+		}
+		return false
+	}
+	n, all := 0, true
+	allInstrs(fn, func(in ssa.Instruction) {
+		if r, ok := in.(*ssa.Return); ok && len(r.Results) == 1 {
+			n++
+			if !cur(r.Results[0], 0) {
+				all = false
+			}
+		}
+	})
+	return n > 0 && all
 }
 
 // cellFNN: every value that can be in cell at load `at` is fresh-non-nil.
